@@ -20,7 +20,9 @@ EXPLANATION = (
     'an acquire load of the stored exception; D3 cancel() frees what execute() frees (task classes of all drivers); D4 '
     'Body::join is skipped for a cancelled group and the zombie body is destroyed iff it was constructed; D5 group/graph '
     'context is reset on both the normal and the exceptional exit of the waits; D6 thread entry points are noexcept; D7 a '
-    'delegated functor runs under a completion handler and always reaches finalize().  "One that was actually thrown", the '
+    'delegated functor runs under a completion handler and always reaches finalize(); D8 a splitting task is re-parented to a '
+    'new join-tree node only when nothing that can throw (the user\'s Range/Body copy) stands between that and the attachment '
+    'and spawn of its sibling, so a throw never leaves a join node waiting for a child that does not exist.  "One that was actually thrown", the '
     'timing of bodies versus the rethrow and user-object lifetime counts are NOT decided.')
 ASSUMPTIONS = ['the try_call/raii_guard idiom behaves as its definition in _template_helpers.h (checked structurally in D5)',
                'task classes not instantiated by the drivers are not analysed']
@@ -66,6 +68,7 @@ def run(facts, rep):
     d5_reset(facts, rep)
     d6_noexcept(facts, rep)
     d7_delegate(facts, rep)
+    d8_tree_window(facts, rep)
     idiom(facts, rep)
 
 
@@ -329,3 +332,48 @@ def idiom(facts, rep):
         cs = [c for c in calls(fn) if c[2].get('op') == '()']
         ok = bool(cs) and bool(g) and all(dominated_by_edges(fn, c[0], g)[0] for c in cs)
         rep.ob('D5', 'K3', fn, 'raii_guard runs its functor at scope exit iff still active', ok, 'raii_guard destructor changed')
+
+
+
+# ---------------------------------------------------------------------------------------------------------------
+def d8_tree_window(facts, rep):
+    """offer_work_impl of the tree-based algorithms: the running task is re-parented (this->my_parent = new node with
+    ref_count 2).  From that store on the node expects two children.  If anything throws before the right child is
+    attached and spawned, cancel()/finalize() of the running task folds a node that waits for a child that was never
+    created: the root wait is never released and the exception never surfaces.  Rule: no call that may throw (callee
+    not noexcept) between the re-parenting store and the spawn of the sibling."""
+    n = 0
+    for cls in ('start_for', 'start_reduce', 'start_deterministic_reduce'):
+        fns = facts.get(D1 + cls + '::offer_work_impl')
+        for fn in fns:
+            stores = []
+            for pos, s, nd in fn.stmt_elems(('binop',)):
+                if nd['op'] != '=':
+                    continue
+                l = fn.n(fn.strip(nd['l']))
+                if l.get('k') == 'member' and l.get('n') == 'my_parent' and fn.n(l.get('base', -1)).get('k') == 'this':
+                    stores.append((pos, nd))
+            sp = set(c[0] for c in calls_named(fn, ('spawn_self', 'spawn')))
+            if not stores or not sp:
+                raise AnalysisBroken('%s::offer_work_impl: re-parenting store or spawn not found' % cls)
+            for pos, nd in stores:
+                reached, ex, par = fn.walk(pos, stop_elem=lambda p, e: p in sp)
+                bad = []
+                for q in reached:
+                    if q == pos or q in sp:
+                        continue
+                    e = fn.elems(q[0])[q[1]]
+                    if not isinstance(e, int) or fn.nodes[e].get('k') not in ('call', 'ctor', 'new'):
+                        continue
+                    d = fn.callee(e)
+                    if d is None or d.get('ne'):
+                        continue
+                    if d.get('p') in ('std::forward', 'std::move'):
+                        continue
+                    bad.append('%s at line %s' % (d.get('q', d.get('n')), fn.nodes[e].get('ln')))
+                n += 1
+                rep.ob('D8', 'K9', fn, 'nothing can throw between re-parenting the running task and spawning its sibling', not bad,
+                       'after this->my_parent was set to the new 2-child join node, %s may throw (user Range/Body copy): the node then '
+                       'never gets its second child, the wait hangs and the exception is never rethrown' % '; '.join(sorted(set(bad))[:2]),
+                       ln=nd['ln'])
+    rep.floor('D8', 3, 'offer_work_impl of the three tree-based algorithms')
